@@ -138,7 +138,9 @@ def graphs_of(case, lines):
                     fr, to, size = to, fr, -size
                 edges.append([None, list(fr) if isinstance(fr, tuple) else [fr],
                               list(to) if isinstance(to, tuple) else [to], frs(size), bool(con.stretch)])
-            out[ax] = {'edges': edges, 'cnodes': {n: list(t) for n, t in g.cnodes.items()}}
+            table = [[list(k[0]) if isinstance(k[0], tuple) else [k[0]], list(k[1]) if isinstance(k[1], tuple) else [k[1]],
+                      frs(con.size), bool(con.stretch)] for k, con in g.constraints.items()]
+            out[ax] = {'edges': edges, 'cnodes': {n: list(t) for n, t in g.cnodes.items()}, 'table': table}
         raw_solve(sch, method, out)
         return out
     for ax, g in (('x', placer.xgraph), ('y', placer.ygraph)):
